@@ -271,7 +271,12 @@ func init() {
 		},
 		min: 32,
 		valid: func(rng *rand.Rand) []byte {
-			return specAES(testK2, rbytes(rng, 16), rbytes(rng, rng.Intn(70)))
+			// mostly the sizes of ordinary messages; one in six a long payload (up to 400 bytes)
+			n := rng.Intn(70)
+			if rng.Intn(6) == 0 {
+				n = 90 + rng.Intn(311)
+			}
+			return specAES(testK2, rbytes(rng, 16), rbytes(rng, n))
 		},
 		extra: func(g *genCtx, emit func(byte, bool, []byte, []byte, []byte)) {
 			// every message length 0…64 (every residue mod 16)
